@@ -38,6 +38,8 @@ PROPS = {
                 assumptions=[]),
     "C15": dict(lemmas=[], not_decided=["emulated populations under drift correction (QuTiP)", "closest off-detuning option (numpy argmin; bounded stand-in)"],
                 assumptions=["A-EOMBW"]),
+    "C16": dict(lemmas=[], not_decided=["Blackman / Kaiser / Interpolated numerics, from_max_val, __eq__ vs isclose, finiteness: bounded stand-in (durations 1..40 exhaustive)",
+                                        "floating-point range of the phase modulo (outside A-REAL)"], assumptions=["A-NUMPY elementwise array arithmetic, np.ones/arange/clip"]),
     "C10": dict(lemmas=[], not_decided=["phase-jump clause with phase-drift correction (EOM) is stated for drift-free adds only"], assumptions=[]),
     "C09": dict(only=r"/(exc_safe|frame)\.", lemmas=[], not_decided=["replay determinism as a theorem; draw()"], assumptions=[]),
 }
